@@ -578,11 +578,24 @@ func (f *FuncCFG) PostDominates(a, b ast.Node) bool {
 // ReachableWithout reports whether `to` (or, if to == nil, a returning exit) can be reached from
 // the point just after `from` without passing through any node for which barrier returns true.
 // It returns a witness description of the offending path end.
+// EveryPathPasses reports whether every path from the function entry to a returning exit passes a
+// node for which pred holds.
+func (f *FuncCFG) EveryPathPasses(pred func(ast.Node) bool) bool {
+	reach, _ := f.reachableFrom(0, 0, nil, pred)
+	return !reach
+}
+
 func (f *FuncCFG) ReachableWithout(from ast.Node, to ast.Node, barrier func(ast.Node) bool) (bool, ast.Node) {
 	wf, ok := f.where[from]
 	if !ok {
-		return false, nil
+		panic(fmt.Sprintf("internal: ReachableWithout from a node that is not in the CFG (%T)", from))
 	}
+	return f.reachableFrom(wf[0], wf[1]+1, to, barrier)
+}
+
+func (f *FuncCFG) reachableFrom(b0, i0 int, to ast.Node, barrier func(ast.Node) bool) (bool, ast.Node) {
+	var from ast.Node
+	wf := [2]int{b0, i0 - 1}
 	idx := map[*cfg.Block]int{}
 	for i, b := range f.G.Blocks {
 		idx[b] = i
